@@ -21,6 +21,7 @@ import MdModel.DumpMiscInfo
 import MdModel.DumpMaps
 import MdModel.DumpUnified
 import MdModel.DumpIds
+import MdModel.DumpRegs
 namespace MdModel.Dump
 open MdModel
 open MdModel.Gen.LayoutsX
@@ -129,7 +130,9 @@ def readFull (ms : MemSizes) (b : Bytes) : M (Except Err Full) :=
       finding C01-procfs-mmappath —, its lookup table, `memory_info_at_address` around every entry,
     * `UnifiedMemoryInfoList` over the memory-info list and the maps (MdModel.DumpUnified),
     * `os_parts`, the `Module` identifier accessors and `print` of every module, the unloaded
-      modules' code identifiers, the soft-errors stream (MdModel.DumpIds).
+      modules' code identifiers, the soft-errors stream (MdModel.DumpIds),
+    * the register accessors (`valid_registers`, `get_register`, `format_register`, `register_size`)
+      of every thread's and the exception's context, through C18's tables (MdModel.DumpRegs).
 
   `readWhole` = `readFull` then `readMore` is what the driver runs. -/
 
@@ -171,6 +174,10 @@ structure More where
   /-- `code_identifier()` of every unloaded module -/
   unloaded : Option (List String)
   softErrors : Except Err Nat
+  /-- per thread: the register accessors of its context (`none`: no thread list or no system info) -/
+  regs : Option (List (Option RegsOut))
+  /-- the same for the exception's context -/
+  excRegs : Option (Option RegsOut)
 
 /-- one operation, wrapped in `catch_unwind` in render mode -/
 def guarded {α : Type} (caught : Bool) (x : M α) : M (Except String α) :=
@@ -205,8 +212,14 @@ def readMore (caught : Bool) (b : Bytes) (f : Full) : M More :=
     | .ok us => some (us.map unloadedIds)
     | .error _ => none
   getStream d b ST_MozSoftErrors readSoftErrors >>= fun soft =>
+  (match f.base.threads, f.extra.sys with
+   | .ok ts, .ok si => threadRegisters b e si.arch ts >>= fun r => pure (some r)
+   | _, _ => pure none) >>= fun regs =>
+  (match f.base.exception, f.extra.sys with
+   | .ok x, .ok si => registersOf b e si.arch x.context >>= fun r => pure (some r)
+   | _, _ => pure none) >>= fun excRegs =>
   pure { misc := misc, maps := maps, unified := unified, osParts := osp, modules := modules, unloaded := unloaded,
-         softErrors := soft }
+         softErrors := soft, regs := regs, excRegs := excRegs }
 
 structure Whole where
   full : Full
